@@ -53,9 +53,20 @@ func ufFamily(name string) string {
 }
 
 // slicePC returns the conjuncts of the path condition relevant to the goals.
-func (e *Exec) slicePC(goals ...*Term) []*Term {
+func (e *Exec) slicePC(goals ...*Term) []*Term { return e.slicePCKinds("abp", goals...) }
+
+// slicePCKinds: as slicePC but only over conjuncts of the given kinds.
+func (e *Exec) slicePCKinds(kinds string, goals ...*Term) []*Term {
 	if len(e.pc) == 0 {
 		return nil
+	}
+	allowed := func(i int) bool {
+		for j := 0; j < len(kinds); j++ {
+			if kinds[j] == e.pcKind[i] {
+				return true
+			}
+		}
+		return false
 	}
 	reach := map[string]bool{}
 	for _, g := range goals {
@@ -68,7 +79,7 @@ func (e *Exec) slicePC(goals ...*Term) []*Term {
 	for changed {
 		changed = false
 		for i, p := range e.pc {
-			if used[i] {
+			if used[i] || !allowed(i) {
 				continue
 			}
 			syms := e.symsOf(p)
@@ -91,6 +102,37 @@ func (e *Exec) slicePC(goals ...*Term) []*Term {
 	var out []*Term
 	for i, p := range e.pc {
 		if used[i] {
+			out = append(out, p)
+		}
+	}
+	return out
+}
+
+// sliceDirect: assumption conjuncts (transitively) plus those branch / proved
+// conjuncts whose symbols all occur in the goal itself.
+func (e *Exec) sliceDirect(goal *Term) []*Term {
+	out := e.slicePCKinds("a", goal)
+	gs := map[string]bool{}
+	for _, s := range e.symsOf(goal) {
+		gs[s] = true
+	}
+	have := map[int]bool{}
+	for _, t := range out {
+		have[t.id] = true
+	}
+	for i, p := range e.pc {
+		if e.pcKind[i] == 'a' || have[p.id] {
+			continue
+		}
+		syms := e.symsOf(p)
+		ok := len(syms) > 0
+		for _, s := range syms {
+			if !gs[s] {
+				ok = false
+				break
+			}
+		}
+		if ok {
 			out = append(out, p)
 		}
 	}
